@@ -51,5 +51,6 @@ func (s *span) Malloc(n, align int) unsafe.Pointer {
 	// memory addr alignment off: aligned(ret) - ret
 	off := (uintptr(ret)+uintptr(mask)) & ^uintptr(mask) - uintptr(ret)
 	s.p += n + int(off)
+	verifSpanMalloc(s, unsafe.Add(ret, off), n, align)
 	return unsafe.Add(ret, off)
 }
